@@ -25,9 +25,30 @@ def hsOp (args : List String) : String :=
     | _, _, _, _, _, _ => "bad-op"
   | _ => "bad-op"
 
+/-- `hsopt <mode> <option> <seed>`: what the configuration demands (harness/c06opt.go). The application's
+    VerifyPeerCertificate callback is part of the acceptance decision on either side - on a server it is consulted
+    whenever a certificate message was processed, also an empty one; a configuration handed out by GetConfigForClient
+    replaces the listener's; an error from it ends the handshake. ALPN: the first protocol of the SERVER's list that the
+    client offers, none when there is no common one; the GMSSL ClientHello carries no ALPN extension. -/
+def hsoptOp (args : List String) : String :=
+  match args with
+  | [mode, opt, _seed] =>
+    if !(mode ∈ ["gm", "tls", "auto-gm", "auto-tls"]) then "bad-op" else
+    let gm := mode = "gm" ∨ mode = "auto-gm"
+    if opt ∈ ["vpc-client-reject", "vpc-server-reject", "vpc-server-nocert", "gcfc-strict-nocert", "gcfc-error"] then "fail"
+    else if opt ∈ ["vpc-client-accept", "vpc-server-accept", "gcfc-strict-cert", "drsd"] then "ok"
+    else match opt.splitOn ":" with
+      | ["alpn", c, s] =>
+        let lst (x : String) : List String := if x = "-" ∨ x = "" then [] else x.splitOn ","
+        let sel := if gm then none else (lst s).find? fun p => (lst c).contains p
+        "ok proto=" ++ sel.getD ""
+      | _ => "bad-op"
+  | _ => "bad-op"
+
 def negotiateDispatch (toks : List String) : Option String :=
   match toks with
   | "hs" :: rest => some (hsOp rest)
+  | "hsopt" :: rest => some (hsoptOp rest)
   | "hspol" :: rest =>
     -- second connection under another ClientAuth policy (same client, same ticket keys): the verdict is that of a
     -- first connection under that policy
